@@ -2,9 +2,12 @@
 
 package core
 
+import "github.com/apmckinlay/gsuneido/verifshim/vsync"
+
 // VerifResetClientTs resets the client-side timestamp batching globals to
 // their process-start values (a fresh client process).
 func VerifResetClientTs() {
+	tsLock = vsync.Mutex{} // a fresh lock: see db19.VerifSetTimestamp
 	tsCount, tsLimit, tsLast = 0, 0, SuDate{}
 }
 
